@@ -129,6 +129,12 @@ func (v *Verifier) heapKeyFor(elem types.Type) string {
 		k = "H_" + sanitize(typeKey(elem))
 	}
 	v.globalSorts[k] = want
+	if v.heapTypes == nil {
+		v.heapTypes = map[string]types.Type{}
+	}
+	if _, ok := v.heapTypes[k]; !ok {
+		v.heapTypes[k] = elem
+	}
 	return k
 }
 
@@ -208,5 +214,6 @@ func (v *Verifier) store(st *State, l *Loc, x *Term) {
 func (v *Verifier) newRef(st *State) *Term {
 	a := v.getGlobal(st, "$alloc")
 	st.globals["$alloc"] = v.c.Arith("+", a, v.c.Int(1))
+	v.standaloneRef(st, a)
 	return a
 }
